@@ -20,4 +20,11 @@ TEXT = {
         "design_ref": "DESIGN.md section 2, C04",
         "level_note": "Trusted base: hlref codec/client, hlsim world (net.Pipe connections, replica of the outbox pump loop calling the production sendTransaction), testing/synctest, rapid.",
     },
+    "C16": {
+        "engine": "E5 codec PBT",
+        "technique": "exhaustive enumeration of single/pair/all-but-one privilege bitmaps plus rapid sampling, against an independent privilege-name table; round-trip through both storage forms and through the account manager's migration; wire check at login",
+        "level_text": "Exhaustive over the sub-spaces the property names (all 64 single bits, all 780 pairs of defined privileges, all 40 all-but-one) and sampled beyond; each bitmap is written by mobius and parsed generically against the reference names, loaded back, loaded from the legacy array form (directly and through the manager's migration) and compared bit for bit; the 354 bytes sent at login are compared with the stored bitmap.",
+        "design_ref": "DESIGN.md section 2, C16",
+        "level_note": "Trusted base: hlref.PrivilegeNames / hlref.Access bit numbering (independent of mobius), yaml.v3 generic parser, rapid.",
+    },
 }
